@@ -265,7 +265,7 @@ func checkStream(c Case) error {
 		}()
 	}
 	var got []fasta.Fasta
-	deadline := time.After(60*time.Second + time.Duration(c.StallMs)*time.Millisecond)
+	deadline := vk.After(60*time.Second + time.Duration(c.StallMs)*time.Millisecond)
 	for i := 0; ; i++ {
 		if i == 1 && c.StallMs > 0 {
 			time.Sleep(time.Duration(c.StallMs) * time.Millisecond)
@@ -303,7 +303,7 @@ closed:
 			if err != nil {
 				return err
 			}
-		case <-time.After(30 * time.Second):
+		case <-vk.After(30 * time.Second):
 			return vk.Errf("ParseConcurrent closed its channel but did not return within 30 s")
 		}
 	}
